@@ -437,6 +437,9 @@ class SetOperation(Step):
         left.name = left.name or "left"
         right = Step.from_expression(expression.right, ctes)
         right.name = right.name or "right"
+        if right.name == left.name:
+            # Both operands read the same source: their results must not share a context slot
+            right.name = f"{right.name} (right)"
         step = cls(
             op=expression.__class__,
             left=left.name,
